@@ -751,3 +751,51 @@ func TestC12CallPositions(t *testing.T) {
 }
 
 func init() { reg("C12.callpos", checkC12CallPos) }
+
+// ---- where a macro of the template can be called from ----------------------------------------------------------
+
+type C12ReachCase struct {
+	Which int `json:"which"`
+}
+
+var c12ReachSets = []struct {
+	tm   map[string]string
+	want string
+}{
+	{map[string]string{"main": "{% macro max(a, b) %}MACRO{{ a }}{% endmacro %}{{ max(1, 2) }}|{{ _self.max(1, 2) }}"}, "MACRO1|MACRO1"},
+	{map[string]string{"main": "{% macro date(a) %}D{{ a }}{% endmacro %}{{ _self.date(1) }}|{{ date(2) }}"}, "D1|D2"},
+	{map[string]string{"base": "[{% block c %}{% endblock %}]", "main": "{% extends 'base' %}{% macro k(a) %}K{{ a }}{% endmacro %}{% block c %}{{ k(1) }}{{ _self.k(2) }}{% endblock %}"}, "[K1K2]"},
+	{map[string]string{"base": "[{% block c %}{% endblock %}]", "lib": "{% macro k(a) %}K{{ a }}{% endmacro %}", "main": "{% extends 'base' %}{% import 'lib' as l %}{% block c %}{{ l.k(1) }}{% endblock %}"}, "[K1]"},
+	{map[string]string{"base": "[{% block c %}{% endblock %}]", "lib": "{% macro k(a) %}K{{ a }}{% endmacro %}", "main": "{% extends 'base' %}{% from 'lib' import k as kk %}{% block c %}{{ kk(1) }}{% endblock %}"}, "[K1]"},
+	{map[string]string{"main": "{{ m(1) }}{% macro m(a) %}M{{ a }}{% endmacro %}"}, "M1"},
+	{map[string]string{"main": "{% if true %}{{ m(1) }}{% endif %}{% macro m(a) %}M{{ a }}{{ n(a) }}{% endmacro %}{% macro n(a) %}N{{ a }}{% endmacro %}"}, "M1N1"},
+	{map[string]string{"base": "[{% block c %}{% endblock %}|{% block d %}{% endblock %}]", "mid": "{% extends 'base' %}{% macro mm(a) %}MID{{ a }}{% endmacro %}{% block c %}{{ mm(1) }}{% endblock %}", "main": "{% extends 'mid' %}{% macro cc(a) %}CH{{ a }}{% endmacro %}{% block d %}{{ cc(2) }}{% endblock %}"}, "[MID1|CH2]"},
+	{map[string]string{"base": "[{% block c %}{% endblock %}]", "main": "{% extends 'base' %}{% block c %}{% for i in [1, 2] %}{{ k(i) }}{% endfor %}{% endblock %}{% macro k(a) %}K{{ a }}{% endmacro %}"}, "[K1K2]"},
+}
+
+// checkC12Reach: a macro can be called directly in its defining template — also by a name that a
+// built-in function has, through _self, before its definition, and from the blocks of a template
+// that extends another.
+func checkC12Reach(c C12ReachCase) error {
+	s := c12ReachSets[c.Which%len(c12ReachSets)]
+	r := render(newEngine(s.tm), "main", nil)
+	if r.Failed() || r.Out != s.want {
+		return fmt.Errorf("templates:%s\nrender %v, want %s", showSources(s.tm), r, q(s.want))
+	}
+	return nil
+}
+
+func TestC12Reach(t *testing.T) {
+	r := NewRec(t, "C12", "exhaustive: 9 template sets in which a macro is called directly and through _self under the name of a built-in function, before its definition, and from the blocks of templates that extend another (local macro, import-as, from-import alias, two levels each with its own macro); expected text written out; all cases non-trivial")
+	defer r.Flush()
+	r.SetExhaustive()
+	for i := range c12ReachSets {
+		c := C12ReachCase{Which: i}
+		r.Case(fmt.Sprint(i), true, c12ReachSets[i].tm["main"])
+		if err := checkC12Reach(c); err != nil {
+			r.FailEnum(t, "C12.reach", c, err)
+		}
+	}
+}
+
+func init() { reg("C12.reach", checkC12Reach) }
